@@ -5,7 +5,8 @@
    refused by Save (an invalid role name in admin_roles, or an invalid channel name, passes
    UpdatePrincipal's own checks and is only refused by validate() inside Save): number 1 is obtained, is
    not on any stored principal and is never published as unused.  The harness monitor
-   principal_update_accounted reproduces it on the real code (signature principal-save-rejected). *)
+   principal_update_accounted reproduces it on the real code (signature principal-save-rejected) for trees
+   without the repair; repaired in /repo by commit 142a309. *)
 From SG Require Import Base.Prelude C07.Allocator C07.Principal.
 Open Scope N_scope.
 
